@@ -685,6 +685,9 @@ func (v Value) data() []Value {
 	if t, ok := v.value.(*sliceT); ok {
 		return t.data
 	}
+	if _, ok := v.value.(stringT); ok { // the elements of a string are its bytes
+		return v.convert(TypeSlice).data()
+	}
 	res := make([]Value, v.Len())
 	next := v.Range()
 	for {
